@@ -835,7 +835,7 @@ class LexerTokenStream(TokenStream):
             text = c.value
             if c.type == "COMMENT_SINGLELINE":
                 if text.startswith("///") or text.startswith("//!"):
-                    comment_lines.append(text.rstrip("\n"))
+                    comment_lines.append(text.rstrip("\r\n"))
             else:
                 if text.startswith("/**") or text.startswith("/*!"):
                     # not sure why, but get double new lines
